@@ -19,6 +19,7 @@ import (
 
 // Result of one job.
 type Result struct {
+	Skipped  bool // not started: Skip() said so
 	Job      int
 	Out      json.RawMessage // worker's JSON result (nil if it died)
 	Died     bool
@@ -103,6 +104,9 @@ func NProc() int {
 	return runtime.NumCPU()
 }
 
+// Skip, when set, is asked before each job is started; true = do not start it (its Result has Skipped set).
+var Skip func() bool
+
 // Map runs one worker subprocess per job, at most NProc at a time, and calls
 // done (serialised) for each result as it arrives.
 func Map(kind string, jobs []interface{}, timeout time.Duration, extraEnv []string, done func(Result)) {
@@ -112,6 +116,15 @@ func Map(kind string, jobs []interface{}, timeout time.Duration, extraEnv []stri
 	for i, j := range jobs {
 		wg.Add(1)
 		sem <- struct{}{}
+		if Skip != nil && Skip() {
+			// the caller has what it needs (a violation was found): jobs not yet started are reported as skipped
+			mu.Lock()
+			done(Result{Job: i, Skipped: true})
+			mu.Unlock()
+			<-sem
+			wg.Done()
+			continue
+		}
 		go func(i int, j interface{}) {
 			defer wg.Done()
 			defer func() { <-sem }()
